@@ -122,7 +122,7 @@ func init() {
 		Run:   runC36,
 		Race:  true,
 		Quick: 12000, Thor: 400000,
-		Rule: "a world = capacity 1-3, 1-4 tasks, <=5 ops per task over <=4 keys with unique values; schedule chosen at every mutex acquisition; non-trivial = >=2 operations of different tasks overlapped (one invoked before the other returned) or a multi-op single-task history reaching eviction; distinct = (capacity, op-sequence per task, schedule hash)",
+		Rule: "a world = capacity 1-3, 1-4 tasks, <=5 ops per task over <=4 keys with unique values (a fifth of the Puts store an already used *ClientSessionState again); schedule chosen at every mutex acquisition; non-trivial = >=2 operations of different tasks overlapped (one invoked before the other returned) or a multi-op single-task history reaching eviction; distinct = (capacity, op-sequence per task, schedule hash)",
 		Assumptions: []string{
 			"races need two tasks touching the cache in the same world; weak-memory effects and intra-call parallelism are outside the simulator (DESIGN 2.7)",
 			"porcupine result Unknown (timeout) is counted inconclusive, never a violation",
@@ -148,8 +148,14 @@ func runC36(c *Ctx) {
 			op := ch.Pick(3, "op")
 			in := lruIn{Op: op, Key: ch.Pick(nkeys, "key")}
 			if op == 1 {
-				val++
-				in.Val = val
+				if val > 0 && ch.Bool(20, "re-put") {
+					// the same *ClientSessionState is stored again (a session refreshed in place, or the
+					// same ticket kept under a second key): a Put like any other
+					in.Val = 1 + ch.Pick(val, "re-put-val")
+				} else {
+					val++
+					in.Val = val
+				}
 			}
 			plans[i].ops = append(plans[i].ops, in)
 			total++
